@@ -978,6 +978,18 @@ func genMultiWith(rt *rapid.T, gen kit.GenOpts, withClose bool) *mcase {
 		for i := rapid.IntRange(0, 3).Draw(rt, "warm"); i > 0; i-- {
 			x.exec(Op{Kind: "get", Scope: tag, Ident: rapid.SampledFrom(ids).Draw(rt, "warmId")})
 		}
+		// half of the time the scope has a child with instances of its own: the Close is then busy below
+		// (and can be held there, inside an instance's Close()) while constructions in the scope finish
+		if tag != 0 && rapid.Bool().Draw(rt, "busyChild") {
+			before := len(x.R.LiveScopes())
+			x.exec(Op{Kind: "create", Scope: tag, Ctx: rapid.SampledFrom([]int{0, 1}).Draw(rt, "childCtx")})
+			if ls := x.R.LiveScopes(); len(ls) > before {
+				child := ls[len(ls)-1]
+				for i := rapid.IntRange(1, 3).Draw(rt, "childWarm"); i > 0; i-- {
+					x.exec(Op{Kind: "get", Scope: child, Ident: rapid.SampledFrom(ids).Draw(rt, "childWarmId")})
+				}
+			}
+		}
 	}
 	first := Op{Kind: "get", Scope: tag, Ident: rapid.SampledFrom(ctorIDs).Draw(rt, "id0")}
 	nth := rapid.IntRange(2, 3).Draw(rt, "threads")
@@ -1192,7 +1204,7 @@ func TestC12CloseSchedules(t *testing.T) { runCloseMulti(t, "C12") }
 // order rule: whatever arrives late, no dependency is closed while something that holds it
 // and has been handed over is still open.
 func TestC11MultiSchedules(t *testing.T) {
-	col := evid.New("C11", "multi-thread-schedules", "the programs of the C13 multi-thread part (2-3 resolutions in one scope and a Close of that scope, each parkable at constructor entry/exit, inside an instance's Close() or at a schedule point inside godi) over disposable-rich dependency chains; oracle: no instance is closed while an instance of the same owner that received it as a dependency - and whose creating operation had returned - is still open; no hang, no panic; non-trivial = the closing thread and a resolving thread were both parked")
+	col := evid.New("C11", "multi-thread-schedules", "the programs of the C13 multi-thread part (2-3 resolutions in one scope and a Close of that scope, each parkable at constructor entry/exit, inside an instance's Close() or at a schedule point inside godi) over disposable-rich dependency chains; oracle: no instance is closed while an instance of the same owner that received it as a dependency - and whose creating operation had returned - is still open; what the closed scope itself owns (also an instance whose construction finished while the Close was under way) is closed only after every instance that a descendant scope had before the Close began; no hang, no panic; non-trivial = the closing thread and a resolving thread were both parked")
 	defer col.Flush()
 	rapid.Check(t, func(rt *rapid.T) {
 		g := dispOpts()
@@ -1214,6 +1226,9 @@ func TestC11MultiSchedules(t *testing.T) {
 		}
 		if f == nil {
 			f = c.X.checkC11Deps()
+		}
+		if f == nil {
+			f = c.X.checkC11ChildrenFirst()
 		}
 		closerParked := len(c.Threads) > 0 && c.Threads[len(c.Threads)-1].pk != nil && c.Threads[len(c.Threads)-1].pk.WasHit()
 		if f != nil && isKnown(f) {
